@@ -23,3 +23,91 @@ package types
 //@   ensures result == m.LeaseID
 
 //@ property C06 := (MsgCreateBid).GetSigners#*, (MsgWithdrawLease).GetSigners#*, (MsgCreateLease).GetSigners#*, (MsgCloseBid).GetSigners#*, (MsgCloseLease).GetSigners#*, (*MsgWithdrawLease).GetLeaseID#*
+
+// ---- ids and lifecycle guards (C04) ------------------------------------------------
+//@ import dtypes "github.com/ovrclk/akash/x/deployment/types"
+//@ import sdk "github.com/cosmos/cosmos-sdk/types"
+//@ func (Order).ID
+//@   ensures result == o.OrderID
+//@ func (Bid).ID
+//@   ensures result == obj.BidID
+//@ func (Lease).ID
+//@   ensures result == obj.LeaseID
+//@ func MakeOrderID
+//@   ensures result.Owner == id.Owner && result.DSeq == id.DSeq && result.GSeq == id.GSeq && result.OSeq == oseq
+//@ func (OrderID).GroupID
+//@   ensures result.Owner == id.Owner && result.DSeq == id.DSeq && result.GSeq == id.GSeq
+//@ func (OrderID).Equals
+//@   ensures result <==> (id.Owner == other.Owner && id.DSeq == other.DSeq && id.GSeq == other.GSeq && id.OSeq == other.OSeq)
+//@ func MakeBidID
+//@   ensures result.Owner == id.Owner && result.DSeq == id.DSeq && result.GSeq == id.GSeq && result.OSeq == id.OSeq && result.Provider == bech32(provider)
+//@ func (BidID).Equals
+//@   ensures result <==> (id.Owner == other.Owner && id.DSeq == other.DSeq && id.GSeq == other.GSeq && id.OSeq == other.OSeq && id.Provider == other.Provider)
+//@ func (BidID).LeaseID
+//@   ensures result.Owner == id.Owner && result.DSeq == id.DSeq && result.GSeq == id.GSeq && result.OSeq == id.OSeq && result.Provider == id.Provider
+//@ func (BidID).OrderID
+//@   ensures result.Owner == id.Owner && result.DSeq == id.DSeq && result.GSeq == id.GSeq && result.OSeq == id.OSeq
+//@ func (BidID).GroupID
+//@   ensures result.Owner == id.Owner && result.DSeq == id.DSeq && result.GSeq == id.GSeq
+//@ func (BidID).DeploymentID
+//@   ensures result.Owner == id.Owner && result.DSeq == id.DSeq
+//@ func MakeLeaseID
+//@   ensures result.Owner == id.Owner && result.DSeq == id.DSeq && result.GSeq == id.GSeq && result.OSeq == id.OSeq && result.Provider == id.Provider
+//@ func (LeaseID).Equals
+//@   ensures result <==> (id.Owner == other.Owner && id.DSeq == other.DSeq && id.GSeq == other.GSeq && id.OSeq == other.OSeq && id.Provider == other.Provider)
+//@ func (LeaseID).BidID
+//@   ensures result.Owner == id.Owner && result.DSeq == id.DSeq && result.GSeq == id.GSeq && result.OSeq == id.OSeq && result.Provider == id.Provider
+//@ func (LeaseID).OrderID
+//@   ensures result.Owner == id.Owner && result.DSeq == id.DSeq && result.GSeq == id.GSeq && result.OSeq == id.OSeq
+//@ func (LeaseID).GroupID
+//@   ensures result.Owner == id.Owner && result.DSeq == id.DSeq && result.GSeq == id.GSeq
+//@ func (LeaseID).DeploymentID
+//@   ensures result.Owner == id.Owner && result.DSeq == id.DSeq
+// escrow ids of market objects (scope; the textual id mapping is C05)
+//@ func EscrowAccountForBid
+//@   ensures result.Scope == "bid"
+// bids are accepted on open orders only; a new order is created only over closed ones
+//@ func (Order).ValidateCanBid
+//@   ensures result == nil <==> o.State == OrderOpen
+//@ func (Order).ValidateInactive
+//@   ensures result == nil <==> o.State == OrderClosed
+
+// ---- events (signature = abstract identity of the typed event; byte-level form under C16) ----
+//@ spec sigOrder(kind: int, id: OrderID): str
+//@ spec sigBid(kind: int, id: BidID, price: sdk.Coin): str
+//@ spec sigLease(kind: int, id: LeaseID, price: sdk.Coin): str
+//@ func NewEventOrderCreated
+//@   ensures result.ID == id
+//@ func NewEventOrderClosed
+//@   ensures result.ID == id
+//@ func NewEventBidCreated
+//@   ensures result.ID == id && result.Price == price
+//@ func NewEventBidClosed
+//@   ensures result.ID == id && result.Price == price
+//@ func NewEventLeaseCreated
+//@   ensures result.ID == id && result.Price == price
+//@ func NewEventLeaseClosed
+//@   ensures result.ID == id && result.Price == price
+//@ func (EventOrderCreated).ToSDKEvent
+//@   trusted
+//@   ensures evSig(result) == sigOrder(1, e.ID)
+//@ func (EventOrderClosed).ToSDKEvent
+//@   trusted
+//@   ensures evSig(result) == sigOrder(2, e.ID)
+//@ func (EventBidCreated).ToSDKEvent
+//@   trusted
+//@   ensures evSig(result) == sigBid(1, e.ID, e.Price)
+//@ func (EventBidClosed).ToSDKEvent
+//@   trusted
+//@   ensures evSig(result) == sigBid(2, e.ID, e.Price)
+//@ func (EventLeaseCreated).ToSDKEvent
+//@   trusted
+//@   ensures evSig(result) == sigLease(1, e.ID, e.Price)
+//@ func (EventLeaseClosed).ToSDKEvent
+//@   trusted
+//@   ensures evSig(result) == sigLease(2, e.ID, e.Price)
+
+//@ property C04 := EscrowAccountForBid#*, (Order).ID#*, (Bid).ID#*, (Lease).ID#*, MakeOrderID#*, (OrderID).GroupID#*, (OrderID).Equals#*, MakeBidID#*, (BidID).Equals#*, (BidID).LeaseID#*,
+//@                 (BidID).OrderID#*, (BidID).GroupID#*, (BidID).DeploymentID#*, MakeLeaseID#*, (LeaseID).Equals#*, (LeaseID).BidID#*, (LeaseID).OrderID#*,
+//@                 (LeaseID).GroupID#*, (LeaseID).DeploymentID#*, (Order).ValidateCanBid#*, (Order).ValidateInactive#*,
+//@                 NewEventOrderCreated#*, NewEventOrderClosed#*, NewEventBidCreated#*, NewEventBidClosed#*, NewEventLeaseCreated#*, NewEventLeaseClosed#*
